@@ -247,7 +247,7 @@ def radial_worker(part, job):
         f = np.asarray(pro.rho(pts), dtype=np.float64)
         dev = np.abs(f - iso).max() / iso
         part.dev("radial_promolecule_rel", dev)
-        if dev > 1e-3:
+        if not (dev <= 1e-3):
             part.fail("radial-promolecule", "radial function of %s does not solve rho = %g (rel. dev %.3g)" % (name, iso, dev), case)
     ez, ep = exterior_for(name, zs, p0)
     s = StockholderWeight.from_arrays(zs, p0, ez, ep)
@@ -262,7 +262,7 @@ def radial_worker(part, job):
         w = np.asarray(s.weights(pts), dtype=np.float64)
         dev = np.abs(w - 0.5).max()
         part.dev("radial_weight_abs", dev)
-        if dev > 1e-4 * 5:
+        if not (dev <= 1e-4 * 5):
             part.fail("radial-stockholder", "radial function of %s does not solve w = 0.5 (dev %.3g)" % (name, dev), case)
     # error reporting: bounds that exclude the surface
     from chmpy.shape import promolecule_density_descriptor, stockholder_weight_descriptor
@@ -273,10 +273,10 @@ def radial_worker(part, job):
     rp = sphere_promolecule_radii(pro.dens, o, g, 0.4, 20.0, 1e-12, 30, 2e-4)
     rs = sphere_stockholder_radii(s.s, o, g, 0.05, 9.0, 1e-7, 30, 0.5)
     partial = []
-    if rp.min() > 0 and rp.max() - rp.min() > 0.05:
+    if not (rp.min() <= 0) and not (rp.max() - rp.min() <= 0.05):
         mid = 0.5 * (rp.min() + rp.max())
         partial += [("promolecule", "upper-partly-inside", (0.4, mid)), ("promolecule", "lower-partly-outside", (mid, 20.0))]
-    if rs.min() > 0 and rs.max() - rs.min() > 0.05:
+    if not (rs.min() <= 0) and not (rs.max() - rs.min() <= 0.05):
         mid = 0.5 * (rs.min() + rs.max())
         partial += [("stockholder", "upper-partly-inside", (0.05, mid)), ("stockholder", "lower-partly-outside", (mid, 9.0))]
     for kind, bname, bounds in partial:
@@ -417,7 +417,7 @@ def rod_rotations():
         v = np.array(v, dtype=float) / np.linalg.norm(v)
         z = np.array([0.0, 0.0, 1.0])
         ax = np.cross(z, v)
-        if np.linalg.norm(ax) < 1e-12:
+        if not (np.linalg.norm(ax) >= 1e-12):
             return np.eye(3)
         return rot(tuple(ax), math.acos(max(-1.0, min(1.0, float(z @ v)))))
     return [(("z->%s" % (v,),), to_dir(v)) for v in ((1, 0, 0), (0, 1, 0), (1, 1, 0), (1, 0, -1), (1, 1, 1), (1, -1, 1), (-1, 1, 1), (1, 1, -1), (2, 1, 3))]
